@@ -248,16 +248,35 @@ func init() {
 		if len(data) > 512 {
 			data = data[:512]
 		}
+		// symbolic bytes are tolerated beyond position 64 (every media signature of the sniffer is
+		// shorter; only the text-vs-binary decision looks at the whole prefix): the sniffer runs
+		// natively with those bytes as NUL and as 'a'; if the two answers differ both are explored
 		b := make([]byte, len(data))
+		b2 := make([]byte, len(data))
+		symbolic := false
 		for i, x := range data {
 			c, ok := x.(uint8)
 			if !ok {
 				if _, bad := x.(poison); bad {
 					panic(memError("read of freed C memory"))
 				}
-				panic(engineAbort{psInconclusive, "http.DetectContentType on a symbolic byte within the first 512 bytes"})
+				if i < 64 {
+					panic(engineAbort{psInconclusive, "http.DetectContentType on a symbolic byte within the first 64 bytes"})
+				}
+				symbolic = true
+				b[i], b2[i] = 0, 'a'
+				continue
 			}
-			b[i] = c
+			b[i], b2[i] = c, c
+		}
+		if symbolic {
+			r1, r2 := nativeDetectContentType(b), nativeDetectContentType(b2)
+			if r1 != r2 {
+				if fr.i.ctx.choose(2, "sniff-text-or-binary") == 1 {
+					return r2
+				}
+			}
+			return r1
 		}
 		return nativeDetectContentType(b)
 	})
